@@ -43,6 +43,8 @@ func runC13(p *Program, r *Report) {
 	ruleR135(p, r, a)
 	r.Rule("R13.6", "E4", 3, "nothing is put between quotes unescaped: in the statement printer (Format methods of package sqlparser) no Myprintf verb stands directly inside quote characters unless its operand is the output of the escaping encoder or digits the tokenizer validated (frozen table), and the parser's actions build no quoted text by concatenating quote characters around token bytes outside schema statements; text that holds a quote would otherwise end the literal early and change the statement")
 	ruleR136(p, r)
+	r.Rule("R13.7", "E3", 2, "escaped LIKE wildcards survive tokenizing: in the string scanner, on the path taken for an escaped character that has no decoding, the characters % and _ are each tested for and their backslash is written to the token before the character (MySQL keeps the backslash of these two sequences; dropping it turns `like 'x\\%'` into `like 'x%'` when the statement is printed)")
+	ruleR137(p, r)
 }
 
 func ruleR131(p *Program, r *Report, a *sqlAST) {
@@ -677,4 +679,73 @@ func init() {
 	mut("C13", "SHOW ... LIKE pattern printed between quotes as it is (original defect)", "sqlparser/ast_methods.go", "		buf.Myprintf(\"like %v\", NewStrVal([]byte(node.Like)))", "		buf.Myprintf(\"like '%s'\", node.Like)", "R13.6", "ShowFilter")
 	mut("C13", "PREPARE ... FROM prints the inner statement between quotes as it is (original defect)", "sqlparser/ast_methods.go", "			buf.Myprintf(\"prepare %v from %v\", node.PreparedStatementName, NewStrVal([]byte(query)))", "			_ = query\n			buf.Myprintf(\"prepare %v from '%v'\", node.PreparedStatementName, node.PreparedStatementQuery)", "R13.6", "Prepare")
 	mut("C13", "group_concat separator built by wrapping the token in quotes (original defect)", "sqlparser/sql.go", "			yyVAL.str = \" separator \" + String(NewStrVal(yyDollar[2].bytes))", "			yyVAL.str = \" separator '\" + string(yyDollar[2].bytes) + \"'\"", "R13.6", "separator_opt")
+}
+
+// ---- R13.7
+func ruleR137(p *Program, r *Report) {
+	fn := p.Func("sqlparser.(*Tokenizer).scanString")
+	if fn == nil || fn.Blocks == nil {
+		r.Anchor("R13.7", "sqlparser.(*Tokenizer).scanString")
+		return
+	}
+	writesBackslash := func(b *ssa.BasicBlock) bool {
+		for _, in := range b.Instrs {
+			if c, ok := in.(*ssa.Call); ok {
+				if co := calleeOfCommon(c.Common()); co != nil && co.Name() == "WriteByte" {
+					args := plainArgs(c)
+					if len(args) == 1 {
+						if k, ok := intConst(args[0]); ok && k == 92 {
+							return true
+						}
+					}
+				}
+			}
+		}
+		return false
+	}
+	for _, wc := range []struct {
+		ch   int64
+		name string
+	}{{37, "%"}, {95, "_"}} {
+		ok := false
+		for _, b := range fn.Blocks {
+			iff, isIf := b.Instrs[len(b.Instrs)-1].(*ssa.If)
+			if !isIf {
+				continue
+			}
+			bo, isBo := iff.Cond.(*ssa.BinOp)
+			if !isBo || bo.Op != token.EQL {
+				continue
+			}
+			k, isK := intConst(stripAllConv(bo.Y))
+			if !isK || k != wc.ch {
+				continue
+			}
+			// the true edge reaches a block that writes the backslash without passing another test of the character class
+			seen := map[*ssa.BasicBlock]bool{}
+			var dfs func(x *ssa.BasicBlock, d int) bool
+			dfs = func(x *ssa.BasicBlock, d int) bool {
+				if seen[x] || d > 3 {
+					return false
+				}
+				seen[x] = true
+				if writesBackslash(x) {
+					return true
+				}
+				if len(x.Succs) == 1 {
+					return dfs(x.Succs[0], d+1)
+				}
+				return false
+			}
+			if dfs(b.Succs[0], 0) {
+				ok = true
+			}
+		}
+		r.Check(ok, "R13.7", fnName(fn), "backslash kept before an escaped "+wc.name, p.Pos(fn.Pos()), "lastChar == '"+wc.name+"' leads to WriteByte('\\\\')", "the scanner does not keep the backslash of \\"+wc.name+": the escaped wildcard of a LIKE pattern becomes a wildcard when the statement is re-serialised, and a literal holding the sequence is transformed without its backslash")
+	}
+}
+
+func init() {
+	mut("C13", "tokenizer drops the backslash of escaped LIKE wildcards (original defect)", "sqlparser/token.go", "				if tkn.lastChar == '%' || tkn.lastChar == '_' {", "				if false {", "R13.7", "backslash kept")
+	mut("C13", "tokenizer keeps the backslash of \\% only", "sqlparser/token.go", "				if tkn.lastChar == '%' || tkn.lastChar == '_' {", "				if tkn.lastChar == '%' {", "R13.7", "escaped _")
 }
